@@ -30,6 +30,9 @@ type Model struct {
 	Orphaned map[string]bool
 	// OrphanVals: leaves an orphan delete left on the device (the orphaned intent ruled them and no live intent defines them)
 	OrphanVals map[string]*MLeaf
+	// DevHas, when set, tells whether the device still holds a path: an orphaned leaf is part of the configuration only while
+	// it is really there (an aggregated delete of its list entry by another intent takes it along, which the statement leaves open)
+	DevHas  func(path string) bool
 	Touched    map[string]world.Path // list entries some intent ever touched
 	R0         map[string]*world.Leaf
 	// PrevWinners: choice winners before the transaction being judged (set by Hist.Step; diagnostics for C08 items)
@@ -55,6 +58,7 @@ func (m *Model) Clone() *Model {
 	for k, v := range m.OrphanVals {
 		c.OrphanVals[k] = v
 	}
+	c.DevHas = m.DevHas
 	for k, v := range m.Touched {
 		c.Touched[k] = v
 	}
